@@ -1,7 +1,9 @@
-"""fork-based parallel map over the 16 cores (the harness's own work distribution; results come back in input order)."""
+"""fork-based parallel map over the 16 cores (the harness's own work distribution; results come back in input order).
+Workers are non-daemonic (concurrent.futures), so a job may itself start a process pool (process-mode optimizer runs)."""
 from __future__ import annotations
 import multiprocessing as mp
 import os
+from concurrent.futures import ProcessPoolExecutor
 
 JOBS = int(os.environ.get("VERIF_JOBS", "0") or 0) or min(16, os.cpu_count() or 4)
 
@@ -11,6 +13,5 @@ def pmap(func, items, jobs: int | None = None, chunksize: int | None = None):
     jobs = jobs or JOBS
     if len(items) < 2 * jobs or jobs <= 1:
         return [func(x) for x in items]
-    ctx = mp.get_context("fork")
-    with ctx.Pool(jobs) as pool:
-        return pool.map(func, items, chunksize or max(1, len(items) // (jobs * 8)))
+    with ProcessPoolExecutor(jobs, mp_context=mp.get_context("fork")) as pool:
+        return list(pool.map(func, items, chunksize=chunksize or max(1, len(items) // (jobs * 8))))
